@@ -71,12 +71,13 @@ const (
 	lfRangeBig      // f:[9007199254740993 TO *]  (an integer that float64 cannot hold)
 	lfEqBig         // f:9007199254740993
 	lfNonASCII      // f:"é" style two-byte UTF-8 text
+	lfRangeWhole    // f:[2.0 TO 1e6]  (float bounds with whole values)
 	lfAllCount
 )
 
 var leafNames = []string{"bare", "eq-str", "eq-int", "bare-int", "gt", "ge", "lt", "le", "range-incl", "range-excl", "range-lo", "range-hi",
 	"range-str", "list", "wild", "regexp", "quoted", "float", "bare-wild", "", "range-excl-str", "range-str-lo", "range-str-hi", "range-all",
-	"range-excl-lo", "range-excl-hi", "range-float", "range-float-excl", "list-int", "wild-mid", "regexp-short", "special-float", "range-str-comma", "eq-special", "empty-quoted", "bare-quoted-wild", "wild-field", "quoted-digits", "range-mixed", "quoted-nasty", "regexp-nasty", "range-big", "eq-big", "non-ascii"}
+	"range-excl-lo", "range-excl-hi", "range-float", "range-float-excl", "list-int", "wild-mid", "regexp-short", "special-float", "range-str-comma", "eq-special", "empty-quoted", "bare-quoted-wild", "wild-field", "quoted-digits", "range-mixed", "quoted-nasty", "regexp-nasty", "range-big", "eq-big", "non-ascii", "range-whole-float"}
 
 // concreteFields makes field names the fixed sequence p, q, r, ... (one per leaf) instead of
 // symbolic bytes; used where rows have to be looked up by name.
@@ -178,7 +179,7 @@ func genLeaf(forms []int) *node {
 		lf.field, lf.s1, lf.s2 = holeField(), holeStr(), holeStr()
 	case lfRangeStrLo, lfRangeStrHi:
 		lf.field, lf.s1 = holeField(), holeStr()
-	case lfRangeAll, lfRangeFloat, lfRangeFloatEx:
+	case lfRangeAll, lfRangeFloat, lfRangeFloatEx, lfRangeWhole:
 		lf.field = holeField()
 	case lfRangeExclLo, lfRangeExclHi:
 		lf.field = holeField()
@@ -366,6 +367,8 @@ func printLeaf(lf *leaf, o *printOpts) string {
 		return lf.field + ":{" + lf.d1 + sp(o) + kw("TO", o) + sp(o) + "*}"
 	case lfRangeFloat:
 		return lf.field + ":[1.5" + sp(o) + kw("TO", o) + sp(o) + "2.5]"
+	case lfRangeWhole:
+		return lf.field + ":[2.0" + sp(o) + kw("TO", o) + sp(o) + "1e6]"
 	case lfRangeFloatEx:
 		return lf.field + ":{0.001" + sp(o) + kw("TO", o) + sp(o) + "0.002}"
 	case lfListInt:
